@@ -21,7 +21,7 @@ func init() { checks["C17"] = checkC17 }
 
 const (
 	c17Tol    = 1e-9  // x scale: position tolerance for every constructed / on-curve point
-	c17TolEnd = 1e-11 // x scale: "exactly" for Bezier end points (Horner rounding is ~1e-15 x scale)
+	c17TolEnd = 0 // "exactly": the end control points themselves (a closed curve must end bit-exactly where it starts, or the polygon has a gap)
 )
 
 // c17RunPoly drives the real polygon builder.
@@ -798,7 +798,7 @@ func checkC17(c *Ctx) {
 		"counted only when the library really produced the feature and it matched the independent construction.")
 	c.Assume("fit/no-fit is only judged when clear by a 2% margin and adjacent fillets together use < 98% of their common edge; the competition region is probed and reported, not judged")
 	c.Assume("arc sign convention (fixed by the code and examples/challenge/cc18.go, the doc comment only says the sign selects the side): radius>0 puts the centre on the right of previous->this vertex, the minor arc bulges left")
-	c.Assume("Chamfer(size) = documented 1-facet fillet of radius size/sqrt(2) (cut length = size on a right angle); Bezier 'exactly' = within 1e-11 x scale (Horner rounding), handles r>0")
+	c.Assume("Chamfer(size) = documented 1-facet fillet of radius size/sqrt(2) (cut length = size on a right angle); Bezier end points are demanded bit-exactly, handles r>0")
 	if err := c17SelfTest(c); err != nil {
 		c.Inconclusive("oracle self-test failed: " + err.Error())
 		return
